@@ -217,15 +217,45 @@ pub fn check(args: &[String]) -> i32 {
                 ok = false;
             }
         }
+        let mut rf_chain: Option<ReplayFile> = None;
         if !ok {
-            harness_errors.push(format!("violation of run {} does not replay exactly from {}", rf.run_index, path));
-            continue;
+            // Not reproducible from the scenario alone: does it need the runs before it in the same
+            // process (state kept across runs that start_query() does not reset)? Try histories of
+            // growing length, back to the start of the worker's chunk.
+            let mut tried = BTreeSet::new();
+            for back in [1u64, 3, 7, 15, 63, 255, 1023] {
+                let cf = rf.run_index.saturating_sub(back).max(rf.chunk_first);
+                if !tried.insert(cf) || rf.original_violation.is_none() {
+                    continue;
+                }
+                let mut c = rf.clone();
+                c.chain_first = Some(cf);
+                std::fs::write(&path, serde_json::to_string_pretty(&c).unwrap()).expect("write replay file");
+                let mut both = true;
+                for _ in 0..2 {
+                    let st = Command::new(&exe).args(["replay", &path, "--quiet"]).stdin(Stdio::null()).stdout(Stdio::null()).stderr(Stdio::null()).status();
+                    if st.map(|s| s.code()).ok().flatten() != Some(1) {
+                        both = false;
+                        break;
+                    }
+                }
+                if both {
+                    rf_chain = Some(c);
+                    break;
+                }
+            }
+            if rf_chain.is_none() {
+                harness_errors.push(format!("violation of run {} does not replay exactly from {}", rf.run_index, path));
+                continue;
+            }
         }
+        let chain_note = rf_chain.as_ref().and_then(|c| c.chain_first).map(|cf| format!(" [needs the runs {}..{} before it in the same process]", cf, rf.run_index)).unwrap_or_default();
+        let rf = rf_chain.as_ref().unwrap_or(rf);
         reported += 1;
         exit = 1;
         println!(
-            "violation: {} {} at operation {} {} — expected {} — observed {} — {}",
-            rf.property, rf.violation.class, rf.violation.op_index, rf.violation.op, rf.violation.expected, rf.violation.observed, rf.violation.detail
+            "violation: {} {} at operation {} {} — expected {} — observed {} — {}{}",
+            rf.property, rf.violation.class, rf.violation.op_index, rf.violation.op, rf.violation.expected, rf.violation.observed, rf.violation.detail, chain_note
         );
         println!("  program: {}", rf.program_text.join("  "));
         println!("  history: {}", rf.history_text.join(", "));
